@@ -641,6 +641,12 @@ func (c *Client) Request(ctx context.Context, payload kmip.OperationPayload) (km
 	if err := bi.Err(); err != nil {
 		return nil, err
 	}
+	if bi.ResponsePayload == nil {
+		return nil, errors.New("Missing response payload")
+	}
+	if op := bi.ResponsePayload.Operation(); op != payload.Operation() {
+		return nil, fmt.Errorf("Unexpected response payload for operation %q, expected %q", ttlv.EnumStr(op), ttlv.EnumStr(payload.Operation()))
+	}
 	return bi.ResponsePayload, nil
 }
 
@@ -736,7 +742,12 @@ func (ex Executor[Req, Resp]) ExecContext(ctx context.Context) (Resp, error) {
 		var zero Resp
 		return zero, err
 	}
-	return resp.(Resp), nil
+	typed, ok := resp.(Resp)
+	if !ok {
+		var zero Resp
+		return zero, fmt.Errorf("Unexpected response payload type %T", resp)
+	}
+	return typed, nil
 }
 
 // MustExec is like Exec except it panics if the request fails.
